@@ -1,6 +1,7 @@
 package harness
 
 import (
+	"bytes"
 	"context"
 	"fmt"
 	"io"
@@ -409,6 +410,17 @@ func runRep(dir string, sc repScenario, faults map[int]int) (*repResult, vsched.
 						tx.Put([]byte(o.Key+"2"), []byte(o.Val))
 						tx.Delete([]byte("gone"))
 						e = tx.Commit()
+					}
+					err = e
+				case "badtx":
+					// a transaction the log rejects (an entry larger than one record): the commit fails, nothing changes
+					tx, e := pr.Eng.BeginTransaction(false)
+					if e == nil {
+						tx.Put([]byte(o.Key), []byte(o.Val))
+						tx.Put([]byte(o.Key+"-big"), bytes.Repeat([]byte("B"), 40000))
+						if cerr := tx.Commit(); cerr == nil {
+							e = fmt.Errorf("a commit holding a 40000-byte value succeeded")
+						}
 					}
 					err = e
 				case "bigtx":
